@@ -159,8 +159,8 @@ def plan(ctx):
             jobs.append(((name + ":1", "sync", 1, "burst", 4, 2.5, "failsink"), 1))
             jobs.append(((name + ":1", "sync", 1, "await", 3, 2.0, "failsink"), 1))
         # a long burst (more than a handful in flight at once) and an interval that is not a whole number of milliseconds
-        jobs.append(((name + ":1", "sync", 1, "burst", 7, 7.0), 0))
-        jobs.append(((name + ":1", "future", 1, "burst", 6, 6.0), 0))
+        jobs.append(((name + ":1", "sync", 1, "burst", 6, 1.0), 0))         # (the closing phase lets the line drain)
+        jobs.append(((name + ":1", "future", 1, "burst", 6, 0.5), 0))
         jobs.append(((name + ":0.3337", "sync", 1, "burst", 3, 1.0), 1 if T else 0))
         # two upstream streams feeding the same node
         jobs.append(((name + ":1", "sync", 2, "burst", 3, 1.5, "twoup"), 1))
